@@ -713,7 +713,26 @@ def setup_for(specs):
     return setup
 
 
+def native_replay(clause, model):
+    """native confirmation of a failed deductive obligation: the real delete_symbols on the concrete small-universe configurations of
+    contracts/c19.py (every table present / absent, deletion subsets x force flags, two-symbol expressions), compared with the oracle
+    written from the statement; the first failing configuration is the replayed input"""
+    from . import c19
+    br = c19.bounded("quick", 0)()
+    if br.failures:
+        f = br.failures[0]
+        return {"confirmed": True, "input": f["witness"], "observed": f["detail"][:400], "clause_of_the_native_oracle": f["clause"], "cases_tried": br.cases}
+    return {"confirmed": False, "observed": "the %d concrete configurations satisfy the statement" % br.cases}
+
+
 def jobs(tier="quick", seed=0):
+    for j in _jobs(tier, seed):
+        if j.kind == "D" and j.replay is None:
+            j.replay = native_replay
+        yield j
+
+
+def _jobs(tier="quick", seed=0):
     P = "gtirb_rewriting._modify.delete_symbols:"
     yield Job("C19/D/elf_symbol_info", table_pop_harness(DS._delete_elf_symbol_info, _auxdata.elf_symbol_info, "elf_symbol_info"),
               setup=setup_for({"ds:_delete_elf_symbol_info": (DS._delete_elf_symbol_info, {0: InfoLoop}, False)}), kind="D",
